@@ -289,10 +289,11 @@ func (u *Unit) sortStrings(p *Path, sl *Term) {
 	inRange := func(x *Term) *Term { return And(Ge(x, IntLit(0)), Lt(x, n)) }
 	// outside [off, off+n) nothing changes
 	p.assume(Forall([]*Term{j}, Imp(Not(And(Ge(j, off), Lt(j, Add(off, n)))), Eq(Select(na, j), Select(old, j))), []*Term{Select(na, j)}))
-	// perm is a bijection on [0,n) and na[off+i] = old[off+perm[i]]
+	// perm is a bijection on [0,n) and na[off+i] = old[off+perm[i]]. Triggers are chosen so that the two
+	// halves of the bijection do not feed each other (no matching loop).
 	p.assume(Forall([]*Term{i}, Imp(inRange(i), And(inRange(Select(perm, i)), Eq(Select(inv, Select(perm, i)), i),
-		Eq(Select(na, Add(off, i)), Select(old, Add(off, Select(perm, i)))))), []*Term{Select(perm, i)}, []*Term{Select(na, Add(off, i))}))
-	p.assume(Forall([]*Term{i}, Imp(inRange(i), And(inRange(Select(inv, i)), Eq(Select(perm, Select(inv, i)), i))), []*Term{Select(inv, i)}))
+		Eq(Select(na, Add(off, i)), Select(old, Add(off, Select(perm, i)))))), []*Term{Select(na, Add(off, i))}))
+	p.assume(Forall([]*Term{i}, Imp(inRange(i), And(inRange(Select(inv, i)), Eq(Select(perm, Select(inv, i)), i))), []*Term{Select(old, Add(off, i))}))
 	// ascending
 	p.assume(Forall([]*Term{i, j}, Imp(And(inRange(i), inRange(j), Lt(i, j)),
 		App("str.<=", SBool, Select(na, Add(off, i)), Select(na, Add(off, j)))), []*Term{Select(na, Add(off, i)), Select(na, Add(off, j))}))
